@@ -17,6 +17,76 @@ def csignedGen (r : Rel) (sv : Bool) (k : VName) : VName × Sign :=
 theorem csignedGen_eq_model (r : Rel) (sv : Bool) (k : VName) : csignedGen r sv k = csigned r sv k := by
   cases sv <;> rfl
 
+/-- the value `__setitem__` stores (or the AssertionError) -/
+def setValGen : Sign → Val → Except Err Val
+  | .pos, .atom x => .ok (.atom x)
+  | .neg, .atom x => .ok (.atom (Atom.neg x))
+  | .pos, .tup [some x0, some x1] => .ok (.tup [some x0, some x1])
+  | .pos, .tup [some x0, none] => .ok (.tup [some x0, none])
+  | .pos, .tup [none, some x1] => .ok (.tup [none, some x1])
+  | .pos, .tup [none, none] => .ok (.tup [none, none])
+  | .neg, .tup [some x0, some x1] => .ok (.tup [some (Atom.neg x1), some (Atom.neg x0)])
+  | .neg, .tup [some x0, none] => .ok (.tup [none, some (Atom.neg x0)])
+  | .neg, .tup [none, some x1] => .ok (.tup [some (Atom.neg x1), none])
+  | .neg, .tup [none, none] => .ok (.tup [none, none])
+  | _, .tup _ => .error .assertion
+  | .pos, .list xs => .ok (.list xs)
+  | .neg, .list xs => .ok (.list (xs.map Atom.neg))
+
+def setGen (r : Rel) (a : ADict Val) (k : VName) (v : Val) : Except Err (ADict Val) :=
+  match setValGen (csignedGen r a.signedValues k).2 v with
+  | .ok w => .ok { a with d := a.d.set (csignedGen r a.signedValues k).1 w }
+  | .error e => .error e
+
+theorem setValGen_eq (s : Sign) (v : Val) :
+    setValGen s v = if ok v then .ok (signed s v) else .error .assertion := by
+  cases s <;> cases v with
+  | atom x => rfl
+  | list xs => rfl
+  | tup xs => rcases xs with _ | ⟨_ | x0, _ | ⟨_ | x1, _ | ⟨x2, rest⟩⟩⟩ <;> rfl
+
+theorem setGen_eq_model (r : Rel) (a : ADict Val) (k : VName) (v : Val) :
+    setGen r a k v = ADict.set r a k v := by
+  simp only [setGen, ADict.set, setValGen_eq, csignedGen_eq_model]
+  cases ok v <;> rfl
+
+/-- the value `__getitem__` returns for a stored value -/
+def getValGen : Sign → Val → Except Err Val
+  | .pos, .atom x => .ok (.atom x)
+  | .neg, .atom x => .ok (.atom (Atom.neg x))
+  | .pos, .tup [some x0, some x1] => .ok (.tup [some x0, some x1])
+  | .pos, .tup [some x0, none] => .ok (.tup [some x0, none])
+  | .pos, .tup [none, some x1] => .ok (.tup [none, some x1])
+  | .pos, .tup [none, none] => .ok (.tup [none, none])
+  | .neg, .tup [some x0, some x1] => .ok (.tup [some (Atom.neg x1), some (Atom.neg x0)])
+  | .neg, .tup [some x0, none] => .ok (.tup [none, some (Atom.neg x0)])
+  | .neg, .tup [none, some x1] => .ok (.tup [some (Atom.neg x1), none])
+  | .neg, .tup [none, none] => .ok (.tup [none, none])
+  | _, .tup _ => .error .assertion  -- unreachable: __setitem__ stores 2-tuples only
+  | .pos, .list xs => .ok (.list xs)
+  | .neg, .list xs => .ok (.list (xs.map Atom.neg))
+
+def getGen (r : Rel) (a : ADict Val) (k : VName) : Except Err Val :=
+  match a.d.get (csignedGen r a.signedValues k).1 with
+  | some v => getValGen (csignedGen r a.signedValues k).2 v
+  | none => .error .keyError
+
+theorem getValGen_eq (s : Sign) (v : Val) (h : ok v = true) : getValGen s v = .ok (signed s v) := by
+  cases s <;> cases v with
+  | atom x => rfl
+  | list xs => rfl
+  | tup xs =>
+    rcases xs with _ | ⟨_ | x0, _ | ⟨_ | x1, _ | ⟨x2, rest⟩⟩⟩
+    all_goals first | rfl | (simp [NegVal.ok, Val.ok] at h)
+
+/-- under the representation invariant (stored tuples are pairs, as `__setitem__` guarantees) -/
+theorem getGen_eq_model (r : Rel) (a : ADict Val) (k : VName)
+    (hinv : ∀ c v, a.d.get c = some v → ok v = true) : getGen r a k = ADict.get r a k := by
+  simp only [getGen, ADict.get, csignedGen_eq_model]
+  cases h : a.d.get (csigned r a.signedValues k).1 with
+  | none => rfl
+  | some v => exact getValGen_eq _ v (hinv _ v h)
+
 def delGen (r : Rel) (a : ADict Val) (k : VName) : Except Err (ADict Val) :=
   if a.d.has (csignedGen r a.signedValues k).1 then .ok { a with d := a.d.del (csignedGen r a.signedValues k).1 } else .error .keyError
 
@@ -28,6 +98,40 @@ def containsGen (r : Rel) (a : ADict Val) (k : VName) : Bool := a.d.has (csigned
 theorem containsGen_eq_model (r : Rel) (a : ADict Val) (k : VName) :
     containsGen r a k = ADict.contains r a k := by
   simp only [containsGen, ADict.contains, csignedGen_eq_model]
+
+def updateGen (r : Rel) : ADict Val → List (VName × Val) → ADict Val × Option Err
+  | a, [] => (a, none)
+  | a, (k, v) :: rest =>
+    match setGen r a k v with
+    | .ok a' => updateGen r a' rest
+    | .error e => (a, some e)
+
+theorem updateGen_eq_model (r : Rel) (l : List (VName × Val)) :
+    ∀ a : ADict Val, updateGen r a l = ADict.update r a l := by
+  induction l with
+  | nil => intro a; rfl
+  | cons p rest ih =>
+    intro a
+    obtain ⟨k, v⟩ := p
+    simp only [updateGen, ADict.update, setGen_eq_model]
+    cases ADict.set r a k v with
+    | ok a' => exact ih a'
+    | error e => rfl
+
+def getDGen (r : Rel) (a : ADict Val) (k : VName) (dflt : Val) : Except Err Val :=
+  if containsGen r a k then getGen r a k else .ok dflt
+
+theorem getDGen_eq_model (r : Rel) (a : ADict Val) (k : VName) (dflt : Val)
+    (hinv : ∀ c v, a.d.get c = some v → ok v = true) :
+    getDGen r a k dflt = .ok (ADict.getD r a k dflt) := by
+  simp only [getDGen, ADict.getD, containsGen_eq_model, getGen_eq_model r a k hinv]
+  cases hc : ADict.contains r a k
+  · rfl
+  · simp only [ADict.contains, PyDict.has] at hc
+    simp only [ADict.get, if_true]
+    cases hg : a.d.get (csigned r a.signedValues k).1 with
+    | none => rw [hg] at hc; cases hc
+    | some v => rfl
 
 def keysGen (a : ADict Val) : List VName := a.d.keys
 
